@@ -56,11 +56,12 @@ func main() {
 			}
 			return m
 		},
-		Count: map[string]int{"quick": 300, "thorough": 12000},
+		Count: map[string]int{"quick": 1000, "thorough": 20000},
 		Canon: dispatch.Canon,
 		Extra: func() map[string]any {
 			return map[string]any{
-				"matrix": fmt.Sprintf("%d fixed histories, %d operations, %d datagrams: 6 classifiers x every function of the type (+1 foreign) x ack x destination known/unknown x source announced/not, for 5 feature types x 3 roles and node management", 17, matrixOps, matrixDatagrams),
+				"implementation_side_distribution": dispatch.Stats(),
+				"matrix":                           fmt.Sprintf("%d fixed histories, %d operations, %d datagrams: 6 classifiers x every function of the type (+1 foreign) x ack x destination known/unknown x source announced/not, for 5 feature types x 3 roles and node management", 17, matrixOps, matrixDatagrams),
 			}
 		},
 	})
